@@ -158,7 +158,8 @@ mod imp {
         let mut bad = false;
         for (det_name, det) in [("present", None), ("absent", Some(false))] {
             seam::set_override(det);
-            let bound3 = if thorough { None } else { Some(3) };
+            let _ = thorough;
+            let bound3: Option<usize> = None; // unbounded exploration is cheap for these harnesses (a few thousand executions)
             for (name, pb, f) in [("H1", None, h1 as fn()), ("H2", bound3, h2 as fn()), ("H3", bound3, h3 as fn())] {
                 let full = format!("{name}/{det_name}");
                 let r = std::panic::catch_unwind(|| explore(&full, pb, f));
